@@ -438,3 +438,14 @@ def count_events(graph: 'CFG', start, end, weight: typing.Callable[[ast.AST], in
             else:
                 best[s] = cand
     return best.get(nb)
+
+
+def cguards(node: ast.AST, stop: typing.Optional[ast.AST] = None, siblings: bool = False) -> list[tuple[str, bool]]:
+    """Canonical guards: like ``guards`` but each condition is returned as (text, polarity) with leading ``not`` peeled
+    into the polarity, so that ``if c:`` / ``if not c:`` / ``if not (not c):`` differ only in the boolean."""
+    out = []
+    for test, pol in guards(node, stop, siblings=siblings):
+        while isinstance(test, ast.UnaryOp) and isinstance(test.op, ast.Not):
+            test, pol = test.operand, not pol
+        out.append((core.src(test), pol))
+    return out
